@@ -85,6 +85,7 @@ func (fr *frame) baseEnv() *SpecEnv {
 			if env.locals == nil {
 				env.locals = map[string]*Loc{}
 			}
+			env.cell(a.Comment, val.L)
 			if _, dup := env.vars[a.Comment]; !dup {
 				env.locals[a.Comment] = val.L
 			}
@@ -95,6 +96,7 @@ func (fr *frame) baseEnv() *SpecEnv {
 				env.locals = map[string]*Loc{}
 			}
 			t := a.Type().(*types.Pointer).Elem()
+			env.cell(a.Comment, &Loc{Ref: val.S, BaseT: t, T: t})
 			if _, dup := env.vars[a.Comment]; !dup {
 				env.locals[a.Comment] = &Loc{Ref: val.S, BaseT: t, T: t}
 			}
